@@ -46,8 +46,9 @@ structure View where
   sock : Option Nat
   nc : Nat
   m : Option (Nat × Nat)
+  cfg : Cfg
 
-def State.view (s : State) : View := ⟨s.pending, s.stream, s.buf, s.wire, s.sock, s.nextConn, s.locks 1⟩
+def State.view (s : State) : View := ⟨s.pending, s.stream, s.buf, s.wire, s.sock, s.nextConn, s.locks 1, s.cfg⟩
 
 def View.shared (v : View) (c : Nat) : Shared := ⟨v.pending c, v.stream c, v.buf, v.wire⟩
 
@@ -77,69 +78,96 @@ def Idle (v : View) : Prop :=
 theorem Idle.quiet {v : View} (h : Idle v) (c : Nat) (hs : v.sock = some c) : Quiet (v.shared c) :=
   ⟨(h.2.2.2 c hs).2.1, (h.2.2.2 c hs).2.2, h.1, h.2.1⟩
 
-/-- where the holder is between taking and giving back the MANAGER lock, and what connection `c` looks like there -/
-inductive IStage (sh : Shared) (c : Nat) (t : Nat) (th : Thread) : Prop where
+/-- this transmission gets no answer -/
+abbrev lostNow (th : Thread) : Prop := th.attempt < th.cur.lost
+
+/-- where the holder is between taking and giving back the MANAGER lock, and what connection `c` looks like there
+    (`A` = how many times the client transmits a request at most) -/
+inductive IStage (A : Nat) (sh : Shared) (c : Nat) (t : Nat) (th : Thread) : Prop where
   | tid (k : Nat) (h : th.ops = .tid :: .connect :: .flush :: .send1 :: .send2 :: tailX th.cur k) (q : Quiet sh)
+      (ha : th.attempt < A)
   | connect (k : Nat) (h : th.ops = .connect :: .flush :: .send1 :: .send2 :: tailX th.cur k) (q : Quiet sh)
+      (ha : th.attempt < A)
   | flush (k : Nat) (h : th.ops = .flush :: .send1 :: .send2 :: tailX th.cur k) (q : Quiet sh)
-      (hfr : th.frame = frameOf th.tidv th.cur)
+      (hfr : th.frame = frameOf th.tidv th.cur) (ha : th.attempt < A)
   | send1 (k : Nat) (h : th.ops = .send1 :: .send2 :: tailX th.cur k) (q : Quiet sh)
-      (hfr : th.frame = frameOf th.tidv th.cur) (hc : th.sconn = c)
+      (hfr : th.frame = frameOf th.tidv th.cur) (hc : th.sconn = c) (ha : th.attempt < A)
   | send2 (k : Nat) (h : th.ops = .send2 :: tailX th.cur k)
       (hfr : th.frame = frameOf th.tidv th.cur) (hc : th.sconn = c) (hp : sh.pending = th.frame.take 7)
       (hs : sh.stream = []) (hb : sh.buf = [])
-      (hw : ∃ w, pairs w = true ∧ sh.wire = w ++ [⟨t, true, c, th.frame.take 7⟩])
+      (hw : ∃ w, pairs w = true ∧ sh.wire = w ++ [⟨t, true, c, th.frame.take 7⟩]) (ha : th.attempt < A)
   | bsent (h : th.ops = [.bdone, .release, .crelease]) (hbc : th.cur.bcast = true) (q : Quiet sh)
   | waiting (k : Nat) (h : th.ops = tailOps k) (hbc : th.cur.bcast = false) (hp : sh.pending = [])
-      (hs : sh.stream = answer th.cur (replyOf th.tidv th.cur)) (hb : sh.buf = []) (hw : pairs sh.wire = true)
+      (hs : sh.stream = answer th.cur th.attempt (replyOf th.tidv th.cur)) (hb : sh.buf = [])
+      (hw : pairs sh.wire = true) (ha : th.attempt < A)
   | recv2 (h : th.ops = [.recv2, .process, .release, .crelease]) (hbc : th.cur.bcast = false)
-      (hl : th.cur.lost = false)
-      (hh : th.hdr = (replyOf th.tidv th.cur).take 8)
+      (hl : ¬ lostNow th) (hh : th.hdr = (replyOf th.tidv th.cur).take 8)
       (hp : sh.pending = []) (hs : sh.stream = (replyOf th.tidv th.cur).drop 8) (hb : sh.buf = [])
-      (hw : pairs sh.wire = true)
+      (hw : pairs sh.wire = true) (ha : th.attempt < A)
+  /- the retry loop is over: what was read is the reply of this attempt, or nothing if it was lost — and then every
+     attempt was -/
   | process (h : th.ops = [.process, .release, .crelease]) (hbc : th.cur.bcast = false)
-      (hr : th.resp = answer th.cur (replyOf th.tidv th.cur)) (q : Quiet sh)
+      (hr : th.resp = answer th.cur th.attempt (replyOf th.tidv th.cur)) (q : Quiet sh) (ha : th.attempt < A)
+      (hfin : lostNow th → A ≤ th.cur.lost)
+  /- a full read came back empty (the connection stays): the back-off before the next attempt / before giving up -/
+  | backoffRetry (k : Nat) (h : th.ops = .backoff :: .connect :: .flush :: .send1 :: .send2 :: tailOps k)
+      (hbc : th.cur.bcast = false) (q : Quiet sh) (ha : th.attempt < A)
+  | backoffLast (h : th.ops = [.backoff, .process, .release, .crelease]) (hbc : th.cur.bcast = false)
+      (hr : th.resp = answer th.cur th.attempt (replyOf th.tidv th.cur)) (q : Quiet sh) (ha : th.attempt < A)
+      (hfin : lostNow th → A ≤ th.cur.lost)
   | release (h : th.ops = [.release, .crelease]) (q : Quiet sh)
+
+/-- the connection was closed by a read that came back short; both locks are still held -/
+def Closed (v : View) (t : Nat) : Prop :=
+  v.sock = none ∧ v.buf = [] ∧ pairs v.wire = true ∧ FreshF v.pending v.stream v.nc ∧ v.m = some (t, 1)
 
 /-- where the holder of the CLIENT lock is inside `BaseModbusClient.execute` -/
 inductive Stage (v : View) (t : Nat) (th : Thread) : Prop where
   | pre (k : Nat) (h : th.ops = .preconnect :: .acquire :: .tid :: .connect :: .flush :: .send1 :: .send2 :: tailX th.cur k)
-      (q : Idle v) (hm : v.m = none)
+      (q : Idle v) (hm : v.m = none) (h0 : th.attempt = 0)
   | opening (k : Nat) (h : th.ops = .open :: .acquire :: .tid :: .connect :: .flush :: .send1 :: .send2 :: tailX th.cur k)
-      (q : Idle v) (hs : v.sock = none) (hm : v.m = none)
+      (q : Idle v) (hs : v.sock = none) (hm : v.m = none) (h0 : th.attempt = 0)
   | acq (k : Nat) (h : th.ops = .acquire :: .tid :: .connect :: .flush :: .send1 :: .send2 :: tailX th.cur k)
-      (q : Idle v) (c : Nat) (hs : v.sock = some c) (hm : v.m = none)
+      (q : Idle v) (c : Nat) (hs : v.sock = some c) (hm : v.m = none) (h0 : th.attempt = 0)
   | inner (c : Nat) (hs : v.sock = some c) (hc1 : c + 1 = v.nc) (hfr : FreshF v.pending v.stream v.nc)
-      (hm : v.m = some (t, 1)) (st : IStage (v.shared c) c t th)
-  /- the reply was lost: the failed read has closed the connection; the error object is still to be made -/
+      (hm : v.m = some (t, 1)) (st : IStage v.cfg.attempts (v.shared c) c t th)
+  /- a reply was lost, the failed read has closed the connection: back-off, reconnect, next attempt -/
+  | closedBackoff (k : Nat) (h : th.ops = .backoff :: .connect :: .flush :: .send1 :: .send2 :: tailOps k)
+      (hbc : th.cur.bcast = false) (ha : th.attempt < v.cfg.attempts) (cl : Closed v t)
+  | closedConnect (k : Nat) (h : th.ops = .connect :: .flush :: .send1 :: .send2 :: tailOps k)
+      (hbc : th.cur.bcast = false) (ha : th.attempt < v.cfg.attempts) (cl : Closed v t)
+  | closedOpen (k : Nat) (h : th.ops = .iopen :: .flush :: .send1 :: .send2 :: tailOps k)
+      (hbc : th.cur.bcast = false) (ha : th.attempt < v.cfg.attempts)
+      (hfm : th.frame = frameOf th.tidv th.cur) (cl : Closed v t)
+  /- every attempt was lost: (back-off,) the error object is still to be made -/
+  | closedBackoffLast (h : th.ops = [.backoff, .process, .release, .crelease]) (hr : th.resp = [])
+      (hbc : th.cur.bcast = false) (hall : v.cfg.attempts ≤ th.cur.lost) (cl : Closed v t)
   | closedProc (h : th.ops = [.process, .release, .crelease]) (hr : th.resp = []) (hbc : th.cur.bcast = false)
-      (hl : th.cur.lost = true)
-      (hs : v.sock = none) (hb : v.buf = []) (hw : pairs v.wire = true) (hfr : FreshF v.pending v.stream v.nc)
-      (hm : v.m = some (t, 1))
-  | closedRel (h : th.ops = [.release, .crelease]) (hs : v.sock = none) (hb : v.buf = [])
-      (hw : pairs v.wire = true) (hfr : FreshF v.pending v.stream v.nc) (hm : v.m = some (t, 1))
+      (hall : v.cfg.attempts ≤ th.cur.lost) (cl : Closed v t)
+  | closedRel (h : th.ops = [.release, .crelease]) (cl : Closed v t)
   | crel (h : th.ops = [.crelease]) (q : Idle v) (hm : v.m = none)
 
 /-- not inside `execute`: between calls, or about to take the client lock -/
 def Outside (th : Thread) : Prop :=
   th.ops = [] ∨ ∃ k, th.ops =
-    .cacquire :: .preconnect :: .acquire :: .tid :: .connect :: .flush :: .send1 :: .send2 :: tailX th.cur k
+    .cacquire :: .preconnect :: .acquire :: .tid :: .connect :: .flush :: .send1 :: .send2 :: tailX th.cur k ∧
+    th.attempt = 0
 
-abbrev Fate (cok : Nat → Bool) (x : Req × Nat × Result) : Prop := Spec.Answered cok x
+abbrev Fate (cok : Nat → Bool) (A : Nat) (x : Req × Nat × Result) : Prop := Spec.Answered cok A x
 
 /-- per-thread bookkeeping: every result so far is what the caller is due (own reply / own error object / the
     connection exception), and results ++ request in progress ++ requests not started = the requests it was given -/
-structure ThreadOK (reqs : Nat → List Req) (cok : Nat → Bool) (t : Nat) (th : Thread) : Prop where
-  served : ∀ x ∈ th.results, Fate cok x
+structure ThreadOK (reqs : Nat → List Req) (cok : Nat → Bool) (A : Nat) (t : Nat) (th : Thread) : Prop where
+  served : ∀ x ∈ th.results, Fate cok A x
   conserve : Conserved reqs t th
 
 structure Inv (reqs : Nat → List Req) (s : State) : Prop where
   free : s.locks 0 = none → Idle s.view ∧ s.locks 1 = none ∧ ∀ t, Outside (s.threads t)
   held : ∀ h d, s.locks 0 = some (h, d) →
     d = 1 ∧ Stage s.view h (s.threads h) ∧ ∀ t, t ≠ h → Outside (s.threads t)
-  ok : ∀ t, ThreadOK reqs s.connOk t (s.threads t)
+  ok : ∀ t, ThreadOK reqs s.connOk s.cfg.attempts t (s.threads t)
 
-theorem IStage.head {sh : Shared} {c t : Nat} {th : Thread} (h : IStage sh c t th) :
+theorem IStage.head {A : Nat} {sh : Shared} {c t : Nat} {th : Thread} (h : IStage A sh c t th) :
     ∃ op l, th.ops = op :: l ∧ op ≠ .acquire ∧ op ≠ .cacquire ∧ op ≠ .open ∧ op ≠ .iopen := by
   cases h with
   | waiting k h =>
@@ -154,35 +182,44 @@ theorem IStage.head {sh : Shared} {c t : Nat} {th : Thread} (h : IStage sh c t t
   | recv2 h => exact ⟨_, _, h, by simp, by simp, by simp, by simp⟩
   | process h => exact ⟨_, _, h, by simp, by simp, by simp, by simp⟩
   | bsent h => exact ⟨_, _, h, by simp, by simp, by simp, by simp⟩
+  | backoffRetry k h => exact ⟨_, _, h, by simp, by simp, by simp, by simp⟩
+  | backoffLast h => exact ⟨_, _, h, by simp, by simp, by simp, by simp⟩
   | release h => exact ⟨_, _, h, by simp, by simp, by simp, by simp⟩
 
 /-- the holder of the client lock can always move: its next operation is never the acquisition of the client lock,
-    and when it is the acquisition of the manager lock, that lock is free -/
+    and when it is the acquisition of the manager lock, that lock is free; when it completes a connection attempt it
+    is not between a send and the end of its receive -/
 theorem Stage.head {v : View} {t : Nat} {th : Thread} (h : Stage v t th) :
-    ∃ op l, th.ops = op :: l ∧ op ≠ .cacquire ∧ (op = .acquire → v.m = none) ∧ op ≠ .iopen ∧
-      (op = .open → th.inFlight = false) := by
+    ∃ op l, th.ops = op :: l ∧ op ≠ .cacquire ∧ (op = .acquire → v.m = none) ∧
+      (op = .open ∨ op = .iopen → th.inFlight = false) := by
   cases h with
-  | pre k h => exact ⟨_, _, h, by simp, by simp, by simp, by simp⟩
-  | opening k h => exact ⟨_, _, h, by simp, by simp, by simp, fun _ => by simp [Thread.inFlight, h]⟩
-  | acq k h q c hs hm => exact ⟨_, _, h, by simp, fun _ => hm, by simp, by simp⟩
+  | pre k h => exact ⟨_, _, h, by simp, by simp, by simp⟩
+  | opening k h => exact ⟨_, _, h, by simp, by simp, fun _ => by simp [Thread.inFlight, h]⟩
+  | acq k h q c hs hm => exact ⟨_, _, h, by simp, fun _ => hm, by simp⟩
   | inner c hs hc1 hfr hm st =>
     obtain ⟨op, l, e, h1, h2, h3, h4⟩ := st.head
-    exact ⟨op, l, e, h2, fun e' => absurd e' h1, h4, fun e' => absurd e' h3⟩
-  | closedProc h => exact ⟨_, _, h, by simp, by simp, by simp, by simp⟩
-  | closedRel h => exact ⟨_, _, h, by simp, by simp, by simp, by simp⟩
-  | crel h => exact ⟨_, _, h, by simp, by simp, by simp, by simp⟩
+    exact ⟨op, l, e, h2, fun e' => absurd e' h1, fun e' => by cases e' with
+      | inl e' => exact absurd e' h3
+      | inr e' => exact absurd e' h4⟩
+  | closedBackoff k h => exact ⟨_, _, h, by simp, by simp, by simp⟩
+  | closedConnect k h => exact ⟨_, _, h, by simp, by simp, by simp⟩
+  | closedOpen k h => exact ⟨_, _, h, by simp, by simp, fun _ => by simp [Thread.inFlight, h]⟩
+  | closedBackoffLast h => exact ⟨_, _, h, by simp, by simp, by simp⟩
+  | closedProc h => exact ⟨_, _, h, by simp, by simp, by simp⟩
+  | closedRel h => exact ⟨_, _, h, by simp, by simp, by simp⟩
+  | crel h => exact ⟨_, _, h, by simp, by simp, by simp⟩
 
 theorem Stage.not_outside {v : View} {t : Nat} {th : Thread} (h : Stage v t th) : ¬ Outside th := by
   obtain ⟨op, l, ho, hne, _⟩ := h.head
   intro hout
   cases hout with
   | inl h0 => rw [h0] at ho; cases ho
-  | inr hk => obtain ⟨k, hk⟩ := hk; rw [hk] at ho; cases ho; exact hne rfl
+  | inr hk => obtain ⟨k, hk, _⟩ := hk; rw [hk] at ho; cases ho; exact hne rfl
 
-theorem ThreadOK.congr {reqs : Nat → List Req} {cok : Nat → Bool} {t : Nat} {th th' : Thread}
-    (h : ThreadOK reqs cok t th)
+theorem ThreadOK.congr {reqs : Nat → List Req} {cok : Nat → Bool} {A : Nat} {t : Nat} {th th' : Thread}
+    (h : ThreadOK reqs cok A t th)
     (h1 : th'.results = th.results) (h2 : th'.todo = th.todo) (h3 : curPending th' = curPending th) :
-    ThreadOK reqs cok t th' :=
+    ThreadOK reqs cok A t th' :=
   ⟨by rw [h1]; exact h.served, h.conserve.congr h1 h2 h3⟩
 
 variable {reqs : Nat → List Req}
@@ -190,8 +227,9 @@ variable {reqs : Nat → List Req}
 /-- the holder of the client lock moves inside `execute` (the client lock does not change hands) -/
 theorem inv_holder_step {s s' : State} {h : Nat} (hi : Inv reqs s) (hl : s.locks 0 = some (h, 1))
     (hoth : ∀ u, u ≠ h → s'.threads u = s.threads u) (hl0 : s'.locks 0 = some (h, 1))
-    (hst : Stage s'.view h (s'.threads h)) (hok : ThreadOK reqs s.connOk h (s'.threads h))
-    (hck : s'.connOk = s.connOk := by first | rfl | exact stepOp_connOk _ _ _ _ _ _) : Inv reqs s' := by
+    (hst : Stage s'.view h (s'.threads h)) (hok : ThreadOK reqs s.connOk s.cfg.attempts h (s'.threads h))
+    (hck : s'.connOk = s.connOk := by first | rfl | exact stepOp_connOk _ _ _ _ _ _)
+    (hcf : s'.cfg = s.cfg := by first | rfl | exact stepOp_cfg _ _ _ _ _ _) : Inv reqs s' := by
   obtain ⟨_, _, hout⟩ := hi.held h 1 hl
   refine ⟨?_, ?_, ?_⟩
   · intro hf; rw [hl0] at hf; cases hf
@@ -200,7 +238,7 @@ theorem inv_holder_step {s s' : State} {h : Nat} (hi : Inv reqs s) (hl : s.locks
     cases hd
     exact ⟨rfl, hst, fun t ht => by rw [hoth t ht]; exact hout t ht⟩
   · intro t
-    rw [hck]
+    rw [hck, hcf]
     by_cases ht : t = h
     · subst ht; exact hok
     · rw [hoth t ht]; exact hi.ok t
@@ -209,8 +247,9 @@ theorem inv_holder_step {s s' : State} {h : Nat} (hi : Inv reqs s) (hl : s.locks
 theorem inv_outsider_step {s s' : State} {t : Nat} (hi : Inv reqs s)
     (hnot : ∀ h d, s.locks 0 = some (h, d) → t ≠ h)
     (hoth : ∀ u, u ≠ t → s'.threads u = s.threads u) (hlocks : s'.locks = s.locks) (hv : s'.view = s.view)
-    (hout : Outside (s'.threads t)) (hok : ThreadOK reqs s.connOk t (s'.threads t))
-    (hck : s'.connOk = s.connOk := by first | rfl | exact stepOp_connOk _ _ _ _ _ _) : Inv reqs s' := by
+    (hout : Outside (s'.threads t)) (hok : ThreadOK reqs s.connOk s.cfg.attempts t (s'.threads t))
+    (hck : s'.connOk = s.connOk := by first | rfl | exact stepOp_connOk _ _ _ _ _ _)
+    (hcf : s'.cfg = s.cfg := by first | rfl | exact stepOp_cfg _ _ _ _ _ _) : Inv reqs s' := by
   refine ⟨?_, ?_, ?_⟩
   · intro hf
     rw [hlocks] at hf
@@ -230,7 +269,7 @@ theorem inv_outsider_step {s s' : State} {t : Nat} (hi : Inv reqs s)
       · subst hut; exact hout
       · rw [hoth u hut]; exact ho u hu
   · intro u
-    rw [hck]
+    rw [hck, hcf]
     by_cases hu : u = t
     · subst hu; exact hok
     · rw [hoth u hu]; exact hi.ok u
@@ -238,8 +277,9 @@ theorem inv_outsider_step {s s' : State} {t : Nat} (hi : Inv reqs s)
 /-- a thread takes the free client lock -/
 theorem inv_cacquire {s s' : State} {t : Nat} (hi : Inv reqs s) (hf : s.locks 0 = none)
     (hoth : ∀ u, u ≠ t → s'.threads u = s.threads u) (hl0 : s'.locks 0 = some (t, 1))
-    (hst : Stage s'.view t (s'.threads t)) (hok : ThreadOK reqs s.connOk t (s'.threads t))
-    (hck : s'.connOk = s.connOk := by first | rfl | exact stepOp_connOk _ _ _ _ _ _) : Inv reqs s' := by
+    (hst : Stage s'.view t (s'.threads t)) (hok : ThreadOK reqs s.connOk s.cfg.attempts t (s'.threads t))
+    (hck : s'.connOk = s.connOk := by first | rfl | exact stepOp_connOk _ _ _ _ _ _)
+    (hcf : s'.cfg = s.cfg := by first | rfl | exact stepOp_cfg _ _ _ _ _ _) : Inv reqs s' := by
   obtain ⟨_, _, ho⟩ := hi.free hf
   refine ⟨?_, ?_, ?_⟩
   · intro h; rw [hl0] at h; cases h
@@ -248,7 +288,7 @@ theorem inv_cacquire {s s' : State} {t : Nat} (hi : Inv reqs s) (hf : s.locks 0 
     cases hl
     exact ⟨rfl, hst, fun u hu => by rw [hoth u hu]; exact ho u⟩
   · intro u
-    rw [hck]
+    rw [hck, hcf]
     by_cases hu : u = t
     · subst hu; exact hok
     · rw [hoth u hu]; exact hi.ok u
@@ -257,8 +297,9 @@ theorem inv_cacquire {s s' : State} {t : Nat} (hi : Inv reqs s) (hf : s.locks 0 
 theorem inv_crelease {s s' : State} {h : Nat} (hi : Inv reqs s) (hl : s.locks 0 = some (h, 1))
     (hoth : ∀ u, u ≠ h → s'.threads u = s.threads u) (hl0 : s'.locks 0 = none)
     (q : Idle s'.view) (hm : s'.locks 1 = none)
-    (hout : Outside (s'.threads h)) (hok : ThreadOK reqs s.connOk h (s'.threads h))
-    (hck : s'.connOk = s.connOk := by first | rfl | exact stepOp_connOk _ _ _ _ _ _) : Inv reqs s' := by
+    (hout : Outside (s'.threads h)) (hok : ThreadOK reqs s.connOk s.cfg.attempts h (s'.threads h))
+    (hck : s'.connOk = s.connOk := by first | rfl | exact stepOp_connOk _ _ _ _ _ _)
+    (hcf : s'.cfg = s.cfg := by first | rfl | exact stepOp_cfg _ _ _ _ _ _) : Inv reqs s' := by
   obtain ⟨_, _, ho⟩ := hi.held h 1 hl
   refine ⟨?_, ?_, ?_⟩
   · intro _
@@ -268,7 +309,7 @@ theorem inv_crelease {s s' : State} {h : Nat} (hi : Inv reqs s) (hl : s.locks 0 
     · rw [hoth u hu]; exact ho u hu
   · intro h' d hl'; rw [hl0] at hl'; cases hl'
   · intro u
-    rw [hck]
+    rw [hck, hcf]
     by_cases hu : u = h
     · subst hu; exact hok
     · rw [hoth u hu]; exact hi.ok u
@@ -289,11 +330,49 @@ theorem filter_crelease_tail (k : Nat) : (tailOps k).filter (· == Op.crelease) 
 theorem processResp_nil (u tid : Nat) : processResp u tid [] [] = (.err .modbusIO, []) := by
   simp [processResp, procRun, tcpStep]
 
-theorem answer_nil (r : Req) : answer r [] = [] := by unfold answer; split <;> rfl
-theorem answer_lost {r : Req} (h : r.lost = true) (b : Bytes) : answer r b = [] := by simp [answer, h]
-theorem answer_bcast {r : Req} (h : r.bcast = true) (b : Bytes) : answer r b = [] := by simp [answer, h]
-theorem answer_kept {r : Req} (hb : r.bcast = false) (h : r.lost = false) (b : Bytes) : answer r b = b := by
+theorem answer_nil (r : Req) (a : Nat) : answer r a [] = [] := by unfold answer; split <;> rfl
+theorem answer_lost {r : Req} {a : Nat} (h : a < r.lost) (b : Bytes) : answer r a b = [] := by simp [answer, h]
+theorem answer_bcast {r : Req} (h : r.bcast = true) (a : Nat) (b : Bytes) : answer r a b = [] := by
+  simp [answer, h]
+theorem answer_kept {r : Req} {a : Nat} (hb : r.bcast = false) (h : ¬ a < r.lost) (b : Bytes) :
+    answer r a b = b := by
   simp [answer, h, hb]
+
+theorem again_true {cfg : Cfg} {a : Nat} (h : cfg.again a = true) : a + 1 < cfg.attempts := by
+  simp only [Cfg.again, Bool.and_eq_true, decide_eq_true_eq] at h
+  simp [Cfg.attempts, h.1]; omega
+
+theorem again_false {cfg : Cfg} {a lost : Nat} (h : cfg.again a = false) (ha : a < cfg.attempts) (hl : a < lost) :
+    cfg.attempts ≤ lost := by
+  unfold Cfg.attempts at *
+  cases hre : cfg.retryOnEmpty with
+  | false => simp [hre] at ha ⊢; omega
+  | true =>
+    simp only [Cfg.again, hre, Bool.true_and, decide_eq_false_iff_not] at h
+    simp [hre] at ha ⊢; omega
+
+theorem attempts_pos (cfg : Cfg) : 0 < cfg.attempts := by unfold Cfg.attempts; split <;> omega
+
+/-- what the retry loop leaves to do after an attempt that got nothing (shipped discipline): give up (with or without
+    a last back-off), or transmit once more (with or without a back-off first) -/
+theorem retry_shape (cfg : Cfg) (th : Thread) :
+    (cfg.again th.attempt = false ∧
+      (retryOps .whole cfg th ++ [.process, .release, .crelease] = [.process, .release, .crelease] ∨
+       retryOps .whole cfg th ++ [.process, .release, .crelease] = [.backoff, .process, .release, .crelease])) ∨
+    (cfg.again th.attempt = true ∧
+      (retryOps .whole cfg th ++ [.process, .release, .crelease] =
+          .connect :: .flush :: .send1 :: .send2 :: tailOps th.cur.lat ∨
+       retryOps .whole cfg th ++ [.process, .release, .crelease] =
+          .backoff :: .connect :: .flush :: .send1 :: .send2 :: tailOps th.cur.lat)) := by
+  unfold retryOps backoffOps attemptOps tailOps
+  cases hre : cfg.retryOnEmpty <;> cases hb : cfg.backoff <;> cases hag : cfg.again th.attempt <;>
+    simp_all [Cfg.again]
+
+theorem filter_releases_tail (k : Nat) :
+    (tailOps k).filter (fun o => o == .release || o == .crelease) = [.release, .crelease] := by
+  induction k with
+  | zero => rfl
+  | succ k ih => rw [tailOps_succ, List.filter_cons_of_neg (by decide)]; exact ih
 
 /-- the holder moves between taking and giving back the manager lock, on connection `c` (no lock changes, the
     socket stays) -/
@@ -301,41 +380,54 @@ theorem inv_inner_step {s s' : State} {h c : Nat} (hi : Inv reqs s) (hl : s.lock
     (hoth : ∀ u, u ≠ h → s'.threads u = s.threads u) (hlocks : s'.locks = s.locks)
     (hso : s'.sock = some c) (hnc : s'.nextConn = s.nextConn) (hc1 : c + 1 = s.nextConn)
     (hfr : FreshF s'.pending s'.stream s.nextConn) (hm : s.locks 1 = some (h, 1))
-    (ist : IStage (s'.view.shared c) c h (s'.threads h)) (hok : ThreadOK reqs s.connOk h (s'.threads h))
-    (hck : s'.connOk = s.connOk := by first | rfl | exact stepOp_connOk _ _ _ _ _ _) : Inv reqs s' :=
+    (ist : IStage s.cfg.attempts (s'.view.shared c) c h (s'.threads h))
+    (hok : ThreadOK reqs s.connOk s.cfg.attempts h (s'.threads h))
+    (hck : s'.connOk = s.connOk := by first | rfl | exact stepOp_connOk _ _ _ _ _ _)
+    (hcf : s'.cfg = s.cfg := by first | rfl | exact stepOp_cfg _ _ _ _ _ _) : Inv reqs s' :=
   inv_holder_step hi hl hoth (by rw [hlocks]; exact hl)
     (Stage.inner c hso (by show c + 1 = s'.nextConn; rw [hnc]; exact hc1)
       (by show FreshF s'.pending s'.stream s'.nextConn; rw [hnc]; exact hfr)
-      (by show s'.locks 1 = _; rw [hlocks]; exact hm) ist) hok hck
+      (by show s'.locks 1 = _; rw [hlocks]; exact hm)
+      (by show IStage s'.cfg.attempts _ _ _ _; rw [hcf]; exact ist)) hok hck hcf
 
+/-- … after the connection was closed by a short read (both locks held, no socket) -/
+theorem inv_closed_step {s s' : State} {h : Nat} (hi : Inv reqs s) (hl : s.locks 0 = some (h, 1))
+    (hoth : ∀ u, u ≠ h → s'.threads u = s.threads u) (hlocks : s'.locks = s.locks)
+    (hst : Stage s'.view h (s'.threads h)) (hok : ThreadOK reqs s.connOk s.cfg.attempts h (s'.threads h))
+    (hck : s'.connOk = s.connOk := by first | rfl | exact stepOp_connOk _ _ _ _ _ _)
+    (hcf : s'.cfg = s.cfg := by first | rfl | exact stepOp_cfg _ _ _ _ _ _) : Inv reqs s' :=
+  inv_holder_step hi hl hoth (by rw [hlocks]; exact hl) hst hok hck hcf
 theorem inv_holder_inner {s : State} {t c : Nat} {op : Op} {ops : List Op} (hi : Inv reqs s)
     (hl : s.locks 0 = some (t, 1)) (hs : s.sock = some c) (hc1 : c + 1 = s.nextConn)
     (hfr : FreshF s.pending s.stream s.nextConn) (hm : s.locks 1 = some (t, 1))
-    (st : IStage (s.view.shared c) c t (s.threads t))
+    (st : IStage s.cfg.attempts (s.view.shared c) c t (s.threads t))
     (hops : (s.threads t).ops = op :: ops) : Inv reqs (stepOp .whole s t (s.threads t) ops op) := by
   have hok := hi.ok t
   have hoth := fun u (hu : u ≠ t) => stepOp_threads_other .whole s t (s.threads t) ops op u hu
   have hcn : c < s.nextConn := by omega
   cases st with
-  | tid k h q =>
+  | tid k h q ha =>
     rw [h] at hops; cases hops
-    refine inv_inner_step hi hl hoth rfl hs rfl hc1 hfr hm (IStage.connect k ?_ ⟨q.1, q.2.1, rfl, q.2.2.2⟩) ?_
+    refine inv_inner_step hi hl hoth rfl hs rfl hc1 hfr hm
+      (IStage.connect k ?_ ⟨q.1, q.2.1, rfl, q.2.2.2⟩ ?_) ?_
     · simp [stepOp, upd_same]
+    · simpa [stepOp, upd_same] using ha
     · exact hok.congr (by simp [stepOp, upd_same]) (by simp [stepOp, upd_same])
         (curPending_congr' (by simp [stepOp, upd_same]) (by rw [h]; simp) (by simp [stepOp, upd_same]))
-  | connect k h q =>
+  | connect k h q ha =>
     rw [h] at hops; cases hops
     refine inv_inner_step hi hl hoth (by simp [stepOp, hs]) (by simpa [stepOp, hs] using hs) (by simp [stepOp, hs])
-      hc1 (by simpa [stepOp, hs] using hfr) hm (IStage.flush k ?_ ?_ ?_) ?_
+      hc1 (by simpa [stepOp, hs] using hfr) hm (IStage.flush k ?_ ?_ ?_ ?_) ?_
     · simp [stepOp, hs, upd_same]
     · simpa [stepOp, hs, State.view, View.shared] using q
     · simp [stepOp, hs, upd_same]
+    · simpa [stepOp, hs, upd_same] using ha
     · exact hok.congr (by simp [stepOp, hs, upd_same]) (by simp [stepOp, hs, upd_same])
         (curPending_congr' (by simp [stepOp, hs, upd_same]) (by rw [h]; simp) (by simp [stepOp, hs, upd_same]))
-  | flush k h q hfm =>
+  | flush k h q hfm ha =>
     rw [h] at hops; cases hops
     refine inv_inner_step hi hl hoth (by simp [stepOp, hs]) (by simpa [stepOp, hs] using hs) (by simp [stepOp, hs])
-      hc1 ?_ hm (IStage.send1 k ?_ ⟨?_, ?_, ?_, ?_⟩ ?_ ?_) ?_
+      hc1 ?_ hm (IStage.send1 k ?_ ⟨?_, ?_, ?_, ?_⟩ ?_ ?_ ?_) ?_
     · simp only [stepOp, hs]; exact hfr.upd_stream c [] hcn
     · simp [stepOp, hs, upd_same]
     · simpa [stepOp, hs, State.view, View.shared] using q.1
@@ -344,14 +436,15 @@ theorem inv_holder_inner {s : State} {t c : Nat} {op : Op} {ops : List Op} (hi :
     · simpa [stepOp, hs, State.view, View.shared] using q.2.2.2
     · simpa [stepOp, hs, upd_same] using hfm
     · simp [stepOp, hs, upd_same]
+    · simpa [stepOp, hs, upd_same] using ha
     · exact hok.congr (by simp [stepOp, hs, upd_same]) (by simp [stepOp, hs, upd_same])
         (curPending_congr' (by simp [stepOp, hs, upd_same]) (by rw [h]; simp) (by simp [stepOp, hs, upd_same]))
-  | send1 k h q hfm hc =>
+  | send1 k h q hfm hc ha =>
     rw [h] at hops; cases hops
     have hp0 : s.pending c = [] := q.1
     have hs0 : s.stream c = [] := q.2.1
     refine inv_inner_step hi hl hoth rfl hs rfl hc1 ?_ hm
-      (IStage.send2 k ?_ ?_ ?_ ?_ ?_ q.2.2.1 ⟨s.wire, q.2.2.2, ?_⟩) ?_
+      (IStage.send2 k ?_ ?_ ?_ ?_ ?_ q.2.2.1 ⟨s.wire, q.2.2.2, ?_⟩ ?_) ?_
     · simp only [stepOp, hc]
       exact (hfr.upd_pending c _ hcn).upd_stream c _ hcn
     · simp [stepOp, upd_same]
@@ -361,9 +454,10 @@ theorem inv_holder_inner {s : State} {t c : Nat} {op : Op} {ops : List Op} (hi :
     · simp only [stepOp, State.view, View.shared, upd_same, hc, hp0, hs0, hfm, server_send1, answer_nil,
         List.append_nil]
     · simp [stepOp, State.view, View.shared, upd_same, hc]
+    · simpa [stepOp, upd_same] using ha
     · exact hok.congr (by simp [stepOp, upd_same]) (by simp [stepOp, upd_same])
         (curPending_congr' (by simp [stepOp, upd_same]) (by rw [h]; simp) (by simp [stepOp, upd_same]))
-  | send2 k h hfm hc hp hsm hb hw =>
+  | send2 k h hfm hc hp hsm hb hw ha =>
     rw [h] at hops; cases hops
     have hp0 : s.pending c = (s.threads t).frame.take 7 := hp
     have hs0 : s.stream c = [] := hsm
@@ -375,7 +469,7 @@ theorem inv_holder_inner {s : State} {t c : Nat} {op : Op} {ops : List Op} (hi :
     | false =>
       rw [tailX_plain hbc] at hoth ⊢
       refine inv_inner_step hi hl hoth (by simp [stepOp, hs]) (by simpa [stepOp, hs] using hs) (by simp [stepOp, hs])
-        hc1 ?_ hm (IStage.waiting k ?_ ?_ ?_ ?_ ?_ ?_) ?_
+        hc1 ?_ hm (IStage.waiting k ?_ ?_ ?_ ?_ ?_ ?_ ?_) ?_
       · simp only [stepOp, hs, hc]
         exact (hfr.upd_pending c _ hcn).upd_stream c _ hcn
       · simp [stepOp, hs, upd_same]
@@ -385,6 +479,7 @@ theorem inv_holder_inner {s : State} {t c : Nat} {op : Op} {ops : List Op} (hi :
           List.nil_append]
       · simpa [stepOp, hs, State.view, View.shared] using hb
       · simpa [stepOp, hs, State.view, View.shared, hc] using hpair
+      · simpa [stepOp, hs, upd_same] using ha
       · exact hok.congr (by simp [stepOp, hs, upd_same]) (by simp [stepOp, hs, upd_same])
           (curPending_congr' (by simp [stepOp, hs, upd_same]) (by rw [h]; simp) (by simp [stepOp, hs, upd_same]))
     | true =>
@@ -420,88 +515,194 @@ theorem inv_holder_inner {s : State} {t c : Nat} {op : Op} {ops : List Op} (hi :
         exact Or.inr (Or.inl ⟨hbc, rfl⟩)
     · exact hok.conserve.finish hcp ((s.threads t).tidv, .bcastSent)
         (by simp [stepOp, upd_same]) (by simp [stepOp, upd_same]) (by simp [stepOp, upd_same])
-  | waiting k h hbc hp hsm hb hw =>
-    have hs0 : s.stream c = answer (s.threads t).cur (replyOf (s.threads t).tidv (s.threads t).cur) := hsm
+  | backoffRetry k h hbc q ha =>
+    rw [h] at hops; cases hops
+    refine inv_inner_step hi hl hoth rfl hs rfl hc1 hfr hm (IStage.connect k ?_ q ?_) ?_
+    · simp [stepOp, upd_same, tailX_plain hbc]
+    · simpa [stepOp, upd_same] using ha
+    · exact hok.congr (by simp [stepOp, upd_same]) (by simp [stepOp, upd_same])
+        (curPending_congr' (by simp [stepOp, upd_same]) (by rw [h]; simp) (by simp [stepOp, upd_same]))
+  | backoffLast h hbc hr q ha hfin =>
+    rw [h] at hops; cases hops
+    refine inv_inner_step hi hl hoth rfl hs rfl hc1 hfr hm (IStage.process ?_ ?_ ?_ q ?_ ?_) ?_
+    · simp [stepOp, upd_same]
+    · simpa [stepOp, upd_same] using hbc
+    · simpa [stepOp, upd_same] using hr
+    · simpa [stepOp, upd_same] using ha
+    · simpa [stepOp, upd_same, lostNow] using hfin
+    · exact hok.congr (by simp [stepOp, upd_same]) (by simp [stepOp, upd_same])
+        (curPending_congr' (by simp [stepOp, upd_same]) (by rw [h]; simp) (by simp [stepOp, upd_same]))
+  | waiting k h hbc hp hsm hb hw ha =>
+    have hs0 : s.stream c =
+        answer (s.threads t).cur (s.threads t).attempt (replyOf (s.threads t).tidv (s.threads t).cur) := hsm
     have hp0 : s.pending c = [] := hp
+    have hb0 : s.buf = [] := hb
+    have hw0 : pairs s.wire = true := hw
     cases k with
     | succ k =>
       rw [h, tailOps_succ] at hops; cases hops
-      refine inv_inner_step hi hl hoth rfl hs rfl hc1 hfr hm (IStage.waiting k ?_ ?_ hp ?_ hb hw) ?_
+      refine inv_inner_step hi hl hoth rfl hs rfl hc1 hfr hm (IStage.waiting k ?_ ?_ hp ?_ hb hw ?_) ?_
       · simp [stepOp, upd_same]
       · simpa [stepOp, upd_same] using hbc
       · simpa [stepOp, State.view, View.shared, upd_same] using hs0
+      · simpa [stepOp, upd_same] using ha
       · exact hok.congr (by simp [stepOp, upd_same]) (by simp [stepOp, upd_same])
           (curPending_congr' (by simp [stepOp, upd_same]) (by rw [h]; simp) (by simp [stepOp, upd_same]))
     | zero =>
       rw [h, tailOps_zero] at hops; cases hops
-      cases hf : (s.threads t).full with
-      | true =>
-        -- `recvPacket(None)`: whatever is there (the whole reply, or nothing if it was lost); no second read
-        refine inv_inner_step hi hl hoth (by simp [stepOp, hs, hf]) (by simp [stepOp, hs, hf])
-          (by simp [stepOp, hs, hf]) hc1 ?_ hm (IStage.process ?_ ?_ ?_ ⟨?_, ?_, ?_, ?_⟩) ?_
-        · simp only [stepOp, hs, hf, if_true]; exact hfr.upd_stream c [] hcn
-        · simp [stepOp, hs, hf, upd_same]
-        · simpa [stepOp, hs, hf, upd_same] using hbc
-        · simp only [stepOp, hs, hf, if_true, upd_same, hs0]
-        · simpa [stepOp, hs, hf, State.view, View.shared] using hp0
-        · simp [stepOp, hs, hf, State.view, View.shared, upd_same]
-        · simpa [stepOp, hs, hf, State.view, View.shared] using hb
-        · simpa [stepOp, hs, hf, State.view, View.shared] using hw
-        · exact hok.congr (by simp [stepOp, hs, hf, upd_same]) (by simp [stepOp, hs, hf, upd_same])
-            (curPending_congr' (by simp [stepOp, hs, hf, upd_same]) (by rw [h]; simp)
-              (by simp [stepOp, hs, hf, upd_same]))
-      | false =>
-        cases hlost : (s.threads t).cur.lost with
-        | false =>
-          have hs1 : s.stream c = replyOf (s.threads t).tidv (s.threads t).cur := by
-            rw [hs0, answer_kept hbc hlost]
-          have e8 : ((s.stream c).take 8).length = 8 := by rw [hs1]; exact replyOf_take8 _ _
-          have e : stepOp .whole s t (s.threads t) [.recv2, .process, .release, .crelease] .recv1 =
-              { s with stream := upd s.stream c ((s.stream c).drop 8),
-                       threads := upd s.threads t
-                         { s.threads t with ops := [.recv2, .process, .release, .crelease], hdr := (s.stream c).take 8 },
-                       trace := (t, .recv1) :: s.trace } := by
-            simp only [stepOp, hs, hf, Bool.false_eq_true, if_false]
-            rw [if_pos e8]
-          have hoth' := hoth
-          rw [e] at hoth' ⊢
-          refine inv_inner_step hi hl hoth' rfl hs rfl hc1 (hfr.upd_stream c _ hcn) hm
-            (IStage.recv2 ?_ ?_ ?_ ?_ hp ?_ hb hw) ?_
-          · simp [upd_same]
-          · simpa [upd_same] using hbc
-          · simpa [upd_same] using hlost
-          · simp only [upd_same, hs1]
-          · simp only [State.view, View.shared, upd_same, hs1]
-          · exact hok.congr (by simp [upd_same]) (by simp [upd_same])
-              (curPending_congr' (by simp [upd_same]) (by rw [h]; simp) (by simp [upd_same]))
+      by_cases hlost : (s.threads t).attempt < (s.threads t).cur.lost
+      · -- this transmission is not answered
+        have hs1 : s.stream c = [] := by rw [hs0, answer_lost hlost]
+        cases hf : (s.threads t).full with
         | true =>
-          -- the reply was lost: the read comes back short, `_transact` closes the connection
-          have hs1 : s.stream c = [] := by rw [hs0, answer_lost hlost]
-          have e : stepOp .whole s t (s.threads t) [.recv2, .process, .release, .crelease] .recv1 =
-              { s with stream := upd s.stream c [], sock := none,
-                       noResp := noteResp s.noResp (s.threads t).cur.unit [],
-                       threads := upd s.threads t
-                         { s.threads t with ops := [.process, .release, .crelease], hdr := [], resp := [] },
-                       trace := (t, .recv1) :: s.trace } := by
-            simp [stepOp, hs, hf, hs1]
-          have hoth' := hoth
-          rw [e] at hoth' ⊢
-          refine inv_holder_step hi hl hoth' hl
-            (Stage.closedProc ?_ ?_ ?_ ?_ rfl hb hw (hfr.upd_stream c [] hcn) hm) ?_
-          · simp [upd_same]
-          · simp [upd_same]
-          · simpa [upd_same] using hbc
-          · simpa [upd_same] using hlost
-          · exact hok.congr (by simp [upd_same]) (by simp [upd_same])
-              (curPending_congr' (by simp [upd_same]) (by rw [h]; simp) (by simp [upd_same]))
-  | recv2 h hbc hlost hh hp hsm hb hw =>
+          -- `recvPacket(None)` comes back empty: the connection stays, the retry loop decides
+          rcases retry_shape s.cfg (s.threads t) with ⟨hag, hsh | hsh⟩ | ⟨hag, hsh | hsh⟩
+          · refine inv_inner_step hi hl hoth (by simp [stepOp, hs, hf, hs1]) (by simp [stepOp, hs, hf, hs1])
+              (by simp [stepOp, hs, hf, hs1]) hc1 (by simpa [stepOp, hs, hf, hs1] using hfr) hm
+              (IStage.process ?_ ?_ ?_ ⟨?_, ?_, ?_, ?_⟩ ?_ ?_) ?_
+            · simp [stepOp, hs, hf, hs1, upd_same, hsh]
+            · simpa [stepOp, hs, hf, hs1, upd_same] using hbc
+            · simp [stepOp, hs, hf, hs1, upd_same, hag, answer_lost hlost]
+            · simpa [stepOp, hs, hf, hs1, State.view, View.shared] using hp0
+            · simpa [stepOp, hs, hf, hs1, State.view, View.shared] using hs1
+            · simpa [stepOp, hs, hf, hs1, State.view, View.shared] using hb0
+            · simpa [stepOp, hs, hf, hs1, State.view, View.shared] using hw0
+            · simpa [stepOp, hs, hf, hs1, upd_same, hag] using ha
+            · intro _; simpa [stepOp, hs, hf, hs1, upd_same] using again_false hag ha hlost
+            · exact hok.congr (by simp [stepOp, hs, hf, hs1, upd_same]) (by simp [stepOp, hs, hf, hs1, upd_same])
+                (curPending_congr' (by simp [stepOp, hs, hf, hs1, upd_same]) (by rw [h]; simp)
+                  (by simp [stepOp, hs, hf, hs1, upd_same, hsh]))
+          · refine inv_inner_step hi hl hoth (by simp [stepOp, hs, hf, hs1]) (by simp [stepOp, hs, hf, hs1])
+              (by simp [stepOp, hs, hf, hs1]) hc1 (by simpa [stepOp, hs, hf, hs1] using hfr) hm
+              (IStage.backoffLast ?_ ?_ ?_ ⟨?_, ?_, ?_, ?_⟩ ?_ ?_) ?_
+            · simp [stepOp, hs, hf, hs1, upd_same, hsh]
+            · simpa [stepOp, hs, hf, hs1, upd_same] using hbc
+            · simp [stepOp, hs, hf, hs1, upd_same, hag, answer_lost hlost]
+            · simpa [stepOp, hs, hf, hs1, State.view, View.shared] using hp0
+            · simpa [stepOp, hs, hf, hs1, State.view, View.shared] using hs1
+            · simpa [stepOp, hs, hf, hs1, State.view, View.shared] using hb0
+            · simpa [stepOp, hs, hf, hs1, State.view, View.shared] using hw0
+            · simpa [stepOp, hs, hf, hs1, upd_same, hag] using ha
+            · intro _; simpa [stepOp, hs, hf, hs1, upd_same] using again_false hag ha hlost
+            · exact hok.congr (by simp [stepOp, hs, hf, hs1, upd_same]) (by simp [stepOp, hs, hf, hs1, upd_same])
+                (curPending_congr' (by simp [stepOp, hs, hf, hs1, upd_same]) (by rw [h]; simp)
+                  (by simp [stepOp, hs, hf, hs1, upd_same, hsh]))
+          · refine inv_inner_step hi hl hoth (by simp [stepOp, hs, hf, hs1]) (by simp [stepOp, hs, hf, hs1])
+              (by simp [stepOp, hs, hf, hs1]) hc1 (by simpa [stepOp, hs, hf, hs1] using hfr) hm
+              (IStage.connect (s.threads t).cur.lat ?_ ⟨?_, ?_, ?_, ?_⟩ ?_) ?_
+            · simp [stepOp, hs, hf, hs1, upd_same, hsh, tailX_plain hbc]
+            · simpa [stepOp, hs, hf, hs1, State.view, View.shared] using hp0
+            · simpa [stepOp, hs, hf, hs1, State.view, View.shared] using hs1
+            · simpa [stepOp, hs, hf, hs1, State.view, View.shared] using hb0
+            · simpa [stepOp, hs, hf, hs1, State.view, View.shared] using hw0
+            · simpa [stepOp, hs, hf, hs1, upd_same, hag] using again_true hag
+            · exact hok.congr (by simp [stepOp, hs, hf, hs1, upd_same]) (by simp [stepOp, hs, hf, hs1, upd_same])
+                (curPending_congr' (by simp [stepOp, hs, hf, hs1, upd_same]) (by rw [h]; simp)
+                  (by simp [stepOp, hs, hf, hs1, upd_same, hsh]))
+          · refine inv_inner_step hi hl hoth (by simp [stepOp, hs, hf, hs1]) (by simp [stepOp, hs, hf, hs1])
+              (by simp [stepOp, hs, hf, hs1]) hc1 (by simpa [stepOp, hs, hf, hs1] using hfr) hm
+              (IStage.backoffRetry (s.threads t).cur.lat ?_ ?_ ⟨?_, ?_, ?_, ?_⟩ ?_) ?_
+            · simp [stepOp, hs, hf, hs1, upd_same, hsh]
+            · simpa [stepOp, hs, hf, hs1, upd_same] using hbc
+            · simpa [stepOp, hs, hf, hs1, State.view, View.shared] using hp0
+            · simpa [stepOp, hs, hf, hs1, State.view, View.shared] using hs1
+            · simpa [stepOp, hs, hf, hs1, State.view, View.shared] using hb0
+            · simpa [stepOp, hs, hf, hs1, State.view, View.shared] using hw0
+            · simpa [stepOp, hs, hf, hs1, upd_same, hag] using again_true hag
+            · exact hok.congr (by simp [stepOp, hs, hf, hs1, upd_same]) (by simp [stepOp, hs, hf, hs1, upd_same])
+                (curPending_congr' (by simp [stepOp, hs, hf, hs1, upd_same]) (by rw [h]; simp)
+                  (by simp [stepOp, hs, hf, hs1, upd_same, hsh]))
+        | false =>
+          -- the read of the header comes back short: `_transact` closes the connection, the retry loop decides
+          have hfr' : FreshF s.pending (upd s.stream c []) s.nextConn := hfr.upd_stream c [] hcn
+          have hcl : Closed (stepOp .whole s t (s.threads t) [.recv2, .process, .release, .crelease] .recv1).view t := by
+            refine ⟨?_, ?_, ?_, ?_, ?_⟩
+            · simp [stepOp, hs, hf, hs1, State.view]
+            · simpa [stepOp, hs, hf, hs1, State.view] using hb0
+            · simpa [stepOp, hs, hf, hs1, State.view] using hw0
+            · simpa [stepOp, hs, hf, hs1, State.view] using hfr'
+            · simpa [stepOp, hs, hf, hs1, State.view] using hm
+          have hokc : ∀ (hne : onlyReleases (retryOps .whole s.cfg (s.threads t) ++ [.process, .release, .crelease]) = false),
+              ThreadOK reqs s.connOk s.cfg.attempts t
+                ((stepOp .whole s t (s.threads t) [.recv2, .process, .release, .crelease] .recv1).threads t) := by
+            intro hne
+            exact hok.congr (by simp [stepOp, hs, hf, hs1, upd_same]) (by simp [stepOp, hs, hf, hs1, upd_same])
+              (curPending_congr' (by simp [stepOp, hs, hf, hs1, upd_same]) (by rw [h]; simp)
+                (by simpa [stepOp, hs, hf, hs1, upd_same] using hne))
+          rcases retry_shape s.cfg (s.threads t) with ⟨hag, hsh | hsh⟩ | ⟨hag, hsh | hsh⟩
+          · refine inv_closed_step hi hl hoth (by simp [stepOp, hs, hf, hs1])
+              (Stage.closedProc ?_ ?_ ?_ ?_ hcl) (hokc (by rw [hsh]; rfl))
+            · simp [stepOp, hs, hf, hs1, upd_same, hsh]
+            · simp [stepOp, hs, hf, hs1, upd_same]
+            · simpa [stepOp, hs, hf, hs1, upd_same] using hbc
+            · simpa [stepOp, hs, hf, hs1, upd_same, State.view] using again_false hag ha hlost
+          · refine inv_closed_step hi hl hoth (by simp [stepOp, hs, hf, hs1])
+              (Stage.closedBackoffLast ?_ ?_ ?_ ?_ hcl) (hokc (by rw [hsh]; rfl))
+            · simp [stepOp, hs, hf, hs1, upd_same, hsh]
+            · simp [stepOp, hs, hf, hs1, upd_same]
+            · simpa [stepOp, hs, hf, hs1, upd_same] using hbc
+            · simpa [stepOp, hs, hf, hs1, upd_same, State.view] using again_false hag ha hlost
+          · refine inv_closed_step hi hl hoth (by simp [stepOp, hs, hf, hs1])
+              (Stage.closedConnect (s.threads t).cur.lat ?_ ?_ ?_ hcl) (hokc (by rw [hsh]; rfl))
+            · simp [stepOp, hs, hf, hs1, upd_same, hsh]
+            · simpa [stepOp, hs, hf, hs1, upd_same] using hbc
+            · simpa [stepOp, hs, hf, hs1, upd_same, hag, State.view] using again_true hag
+          · refine inv_closed_step hi hl hoth (by simp [stepOp, hs, hf, hs1])
+              (Stage.closedBackoff (s.threads t).cur.lat ?_ ?_ ?_ hcl) (hokc (by rw [hsh]; rfl))
+            · simp [stepOp, hs, hf, hs1, upd_same, hsh]
+            · simpa [stepOp, hs, hf, hs1, upd_same] using hbc
+            · simpa [stepOp, hs, hf, hs1, upd_same, hag, State.view] using again_true hag
+      · -- this transmission is answered
+        have hs1 : s.stream c = replyOf (s.threads t).tidv (s.threads t).cur := by
+          rw [hs0, answer_kept hbc hlost]
+        have e8 : ((s.stream c).take 8).length = 8 := by rw [hs1]; exact replyOf_take8 _ _
+        have hne : (s.stream c).isEmpty = false := by
+          cases hsc : s.stream c with
+          | nil => rw [hsc] at e8; simp at e8
+          | cons a l => rfl
+        cases hf : (s.threads t).full with
+        | true =>
+          -- `recvPacket(None)`: the whole reply in one read; no second read
+          refine inv_inner_step hi hl hoth (by simp [stepOp, hs, hf, hne]) (by simp [stepOp, hs, hf, hne])
+            (by simp [stepOp, hs, hf, hne]) hc1 ?_ hm (IStage.process ?_ ?_ ?_ ⟨?_, ?_, ?_, ?_⟩ ?_ ?_) ?_
+          · simp only [stepOp, hs, hf, hne, if_true, Bool.false_eq_true, if_false]; exact hfr.upd_stream c [] hcn
+          · simp [stepOp, hs, hf, hne, upd_same]
+          · simpa [stepOp, hs, hf, hne, upd_same] using hbc
+          · simp only [stepOp, hs, hf, hne, if_true, Bool.false_eq_true, if_false, upd_same]; exact hs0
+          · simpa [stepOp, hs, hf, hne, State.view, View.shared] using hp0
+          · simp [stepOp, hs, hf, hne, State.view, View.shared, upd_same]
+          · simpa [stepOp, hs, hf, hne, State.view, View.shared] using hb0
+          · simpa [stepOp, hs, hf, hne, State.view, View.shared] using hw0
+          · simpa [stepOp, hs, hf, hne, upd_same] using ha
+          · intro hl'; exact absurd (by simpa [stepOp, hs, hf, hne, upd_same, lostNow] using hl') hlost
+          · exact hok.congr (by simp [stepOp, hs, hf, hne, upd_same]) (by simp [stepOp, hs, hf, hne, upd_same])
+              (curPending_congr' (by simp [stepOp, hs, hf, hne, upd_same]) (by rw [h]; simp)
+                (by simp [stepOp, hs, hf, hne, upd_same]))
+        | false =>
+          refine inv_inner_step hi hl hoth (by simp [stepOp, hs, hf, e8]) (by simp [stepOp, hs, hf, e8])
+            (by simp [stepOp, hs, hf, e8]) hc1 ?_ hm (IStage.recv2 ?_ ?_ ?_ ?_ ?_ ?_ ?_ ?_ ?_) ?_
+          · simp only [stepOp, hs, hf, Bool.false_eq_true, if_false, e8, if_true]; exact hfr.upd_stream c _ hcn
+          · simp [stepOp, hs, hf, e8, upd_same]
+          · simpa [stepOp, hs, hf, e8, upd_same] using hbc
+          · simpa [stepOp, hs, hf, e8, upd_same, lostNow] using hlost
+          · simp only [stepOp, hs, hf, Bool.false_eq_true, if_false, e8, if_true, upd_same]; rw [hs1]
+          · simpa [stepOp, hs, hf, e8, State.view, View.shared] using hp0
+          · simp only [stepOp, hs, hf, Bool.false_eq_true, if_false, e8, if_true, State.view, View.shared, upd_same]
+            rw [hs1]
+          · simpa [stepOp, hs, hf, e8, State.view, View.shared] using hb0
+          · simpa [stepOp, hs, hf, e8, State.view, View.shared] using hw0
+          · simpa [stepOp, hs, hf, e8, upd_same] using ha
+          · exact hok.congr (by simp [stepOp, hs, hf, e8, upd_same]) (by simp [stepOp, hs, hf, e8, upd_same])
+              (curPending_congr' (by simp [stepOp, hs, hf, e8, upd_same]) (by rw [h]; simp)
+                (by simp [stepOp, hs, hf, e8, upd_same]))
+  | recv2 h hbc hlost hh hp hsm hb hw ha =>
     rw [h] at hops; cases hops
     have hs0 : s.stream c = (replyOf (s.threads t).tidv (s.threads t).cur).drop 8 := hsm
     have hresp : (s.threads t).hdr ++ (s.stream c).take (restSize (s.threads t).hdr) =
         replyOf (s.threads t).tidv (s.threads t).cur := by
       rw [hh, hs0, restSize_reply]; exact (reply_reassembled _ _).1
     refine inv_inner_step hi hl hoth (by simp [stepOp, hs]) (by simp [stepOp, hs]) (by simp [stepOp, hs]) hc1 ?_ hm
-      (IStage.process ?_ ?_ ?_ ⟨?_, ?_, ?_, ?_⟩) ?_
+      (IStage.process ?_ ?_ ?_ ⟨?_, ?_, ?_, ?_⟩ ?_ ?_) ?_
     · simp only [stepOp, hs]; exact hfr.upd_stream c _ hcn
     · simp [stepOp, hs, upd_same]
     · simpa [stepOp, hs, upd_same] using hbc
@@ -511,15 +712,41 @@ theorem inv_holder_inner {s : State} {t c : Nat} {op : Op} {ops : List Op} (hi :
       rw [hh, hs0, restSize_reply]; exact (reply_reassembled _ _).2
     · simpa [stepOp, hs, State.view, View.shared] using hb
     · simpa [stepOp, hs, State.view, View.shared] using hw
+    · simpa [stepOp, hs, upd_same] using ha
+    · intro hl'; exact absurd (by simpa [stepOp, hs, upd_same, lostNow] using hl') hlost
     · exact hok.congr (by simp [stepOp, hs, upd_same]) (by simp [stepOp, hs, upd_same])
         (curPending_congr' (by simp [stepOp, hs, upd_same]) (by rw [h]; simp) (by simp [stepOp, hs, upd_same]))
-  | process h hbc hr q =>
+  | process h hbc hr q ha hfin =>
     rw [h] at hops; cases hops
     have hb0 : s.buf = [] := q.2.2.1
     have hcp : curPending (s.threads t) = [(s.threads t).cur] := curPending_of (by rw [h]; simp)
-    cases hlost : (s.threads t).cur.lost with
-    | false =>
+    by_cases hlost : (s.threads t).attempt < (s.threads t).cur.lost
+    · -- nothing was read and the retries are used up: the error object is made, the connection closed
       have hpr' : processResp (s.threads t).cur.unit (s.threads t).tidv s.buf (s.threads t).resp =
+          (.err .modbusIO, []) := by
+        rw [hb0, hr, answer_lost hlost, processResp_nil]
+      refine inv_holder_step hi hl hoth hl (Stage.closedRel ?_ ⟨?_, ?_, q.2.2.2, hfr, hm⟩) ⟨?_, ?_⟩
+      · simp [stepOp, upd_same]
+      · show (stepOp .whole s t (s.threads t) [.release, .crelease] .process).view.sock = none
+        simp [State.view, stepOp, hpr', Result.isOk]
+      · show (processResp (s.threads t).cur.unit (s.threads t).tidv s.buf (s.threads t).resp).2 = []
+        rw [hpr']
+      · intro x hx
+        have hx' : x ∈ (s.threads t).results ++
+            [((s.threads t).cur, (s.threads t).tidv,
+              (processResp (s.threads t).cur.unit (s.threads t).tidv s.buf (s.threads t).resp).1)] := by
+          simpa [stepOp, upd_same] using hx
+        rw [List.mem_append] at hx'
+        cases hx' with
+        | inl hx' => exact hok.served x hx'
+        | inr hx' =>
+          rw [List.mem_singleton] at hx'
+          rw [hx', hpr']
+          exact Or.inr (Or.inr (Or.inl ⟨hbc, hfin hlost, rfl⟩))
+      · exact hok.conserve.finish hcp
+          ((s.threads t).tidv, (processResp (s.threads t).cur.unit (s.threads t).tidv s.buf (s.threads t).resp).1)
+          (by simp [stepOp, upd_same]) (by simp [stepOp, upd_same]) (by simp [stepOp, upd_same])
+    · have hpr' : processResp (s.threads t).cur.unit (s.threads t).tidv s.buf (s.threads t).resp =
           (.ok (s.threads t).tidv (s.threads t).cur.unit (Spec.expected (s.threads t).cur), []) := by
         rw [hb0, hr, answer_kept hbc hlost, process_reply]
       refine inv_inner_step hi hl hoth rfl ?_ rfl hc1 hfr hm (IStage.release ?_ ⟨q.1, q.2.1, ?_, q.2.2.2⟩) ⟨?_, ?_⟩
@@ -538,33 +765,7 @@ theorem inv_holder_inner {s : State} {t c : Nat} {op : Op} {ops : List Op} (hi :
         | inr hx' =>
           rw [List.mem_singleton] at hx'
           rw [hx', hpr']
-          exact Or.inr (Or.inr (Or.inr ⟨hbc, hlost, rfl⟩))
-      · exact hok.conserve.finish hcp
-          ((s.threads t).tidv, (processResp (s.threads t).cur.unit (s.threads t).tidv s.buf (s.threads t).resp).1)
-          (by simp [stepOp, upd_same]) (by simp [stepOp, upd_same]) (by simp [stepOp, upd_same])
-    | true =>
-      -- nothing was read (full-read mode): the error object is made, the connection closed
-      have hpr' : processResp (s.threads t).cur.unit (s.threads t).tidv s.buf (s.threads t).resp =
-          (.err .modbusIO, []) := by
-        rw [hb0, hr, answer_lost hlost, processResp_nil]
-      refine inv_holder_step hi hl hoth hl (Stage.closedRel ?_ ?_ ?_ q.2.2.2 hfr hm) ⟨?_, ?_⟩
-      · simp [stepOp, upd_same]
-      · show (stepOp .whole s t (s.threads t) [.release, .crelease] .process).view.sock = none
-        simp [State.view, stepOp, hpr', Result.isOk]
-      · show (processResp (s.threads t).cur.unit (s.threads t).tidv s.buf (s.threads t).resp).2 = []
-        rw [hpr']
-      · intro x hx
-        have hx' : x ∈ (s.threads t).results ++
-            [((s.threads t).cur, (s.threads t).tidv,
-              (processResp (s.threads t).cur.unit (s.threads t).tidv s.buf (s.threads t).resp).1)] := by
-          simpa [stepOp, upd_same] using hx
-        rw [List.mem_append] at hx'
-        cases hx' with
-        | inl hx' => exact hok.served x hx'
-        | inr hx' =>
-          rw [List.mem_singleton] at hx'
-          rw [hx', hpr']
-          exact Or.inr (Or.inr (Or.inl ⟨hbc, hlost, rfl⟩))
+          exact Or.inr (Or.inr (Or.inr ⟨hbc, by show (s.threads t).cur.lost < s.cfg.attempts; omega, rfl⟩))
       · exact hok.conserve.finish hcp
           ((s.threads t).tidv, (processResp (s.threads t).cur.unit (s.threads t).tidv s.buf (s.threads t).resp).1)
           (by simp [stepOp, upd_same]) (by simp [stepOp, upd_same]) (by simp [stepOp, upd_same])
@@ -600,6 +801,13 @@ theorem idle_of_fields {s s' : State} (q : Idle s.view) (h1 : s'.buf = s.buf) (h
   simp only [h1, h2, h3, h4, h5, h6]
   exact q
 
+theorem closed_of_fields {s s' : State} {t : Nat} (q : Closed s.view t) (h1 : s'.buf = s.buf) (h2 : s'.wire = s.wire)
+    (h3 : s'.pending = s.pending) (h4 : s'.stream = s.stream) (h5 : s'.sock = s.sock)
+    (h6 : s'.nextConn = s.nextConn) (h7 : s'.locks = s.locks) : Closed s'.view t := by
+  unfold Closed State.view at *
+  simp only [h1, h2, h3, h4, h5, h6, h7]
+  exact q
+
 theorem inv_holder_op {s : State} {t : Nat} {op : Op} {ops : List Op} (hi : Inv reqs s)
     (hl : s.locks 0 = some (t, 1)) (hst : Stage s.view t (s.threads t))
     (hops : (s.threads t).ops = op :: ops) : Inv reqs (stepOp .whole s t (s.threads t) ops op) := by
@@ -607,31 +815,33 @@ theorem inv_holder_op {s : State} {t : Nat} {op : Op} {ops : List Op} (hi : Inv 
   have hoth := fun u (hu : u ≠ t) => stepOp_threads_other .whole s t (s.threads t) ops op u hu
   cases hst with
   | inner c hs hc1 hfr hm st => exact inv_holder_inner hi hl hs hc1 hfr hm st hops
-  | pre k h q hm =>
+  | pre k h q hm h0 =>
     rw [h] at hops; cases hops
     have hm' : s.locks 1 = none := hm
     cases hsock : s.sock with
     | some c =>
-      refine inv_holder_step hi hl hoth (by simpa [stepOp, hsock] using hl) (Stage.acq k ?_ ?_ c ?_ ?_) ?_
+      refine inv_holder_step hi hl hoth (by simpa [stepOp, hsock] using hl) (Stage.acq k ?_ ?_ c ?_ ?_ ?_) ?_
       · simp [stepOp, hsock, upd_same]
       · exact idle_of_fields q (by simp [stepOp, hsock]) (by simp [stepOp, hsock]) (by simp [stepOp, hsock])
           (by simp [stepOp, hsock]) (by simp [stepOp, hsock]) (by simp [stepOp, hsock])
       · simpa [stepOp, hsock, State.view] using hsock
       · simpa [stepOp, hsock, State.view] using hm'
+      · simpa [stepOp, hsock, upd_same] using h0
       · exact hok.congr (by simp [stepOp, hsock, upd_same]) (by simp [stepOp, hsock, upd_same])
           (curPending_congr' (by simp [stepOp, hsock, upd_same]) (by rw [h]; simp)
             (by simp [stepOp, hsock, upd_same]))
     | none =>
-      refine inv_holder_step hi hl hoth (by simpa [stepOp, hsock] using hl) (Stage.opening k ?_ ?_ ?_ ?_) ?_
+      refine inv_holder_step hi hl hoth (by simpa [stepOp, hsock] using hl) (Stage.opening k ?_ ?_ ?_ ?_ ?_) ?_
       · simp [stepOp, hsock, upd_same]
       · exact idle_of_fields q (by simp [stepOp, hsock]) (by simp [stepOp, hsock]) (by simp [stepOp, hsock])
           (by simp [stepOp, hsock]) (by simp [stepOp, hsock]) (by simp [stepOp, hsock])
       · simpa [stepOp, hsock, State.view] using hsock
       · simpa [stepOp, hsock, State.view] using hm'
+      · simpa [stepOp, hsock, upd_same] using h0
       · exact hok.congr (by simp [stepOp, hsock, upd_same]) (by simp [stepOp, hsock, upd_same])
           (curPending_congr' (by simp [stepOp, hsock, upd_same]) (by rw [h]; simp)
             (by simp [stepOp, hsock, upd_same]))
-  | opening k h q hso hm =>
+  | opening k h q hso hm h0 =>
     rw [h] at hops; cases hops
     have hm' : s.locks 1 = none := hm
     have hso' : s.sock = none := hso
@@ -642,7 +852,7 @@ theorem inv_holder_op {s : State} {t : Nat} {op : Op} {ops : List Op} (hi : Inv 
     cases hc : s.connOk s.attempts with
     | true =>
       refine inv_holder_step hi hl hoth (by simpa [stepOp, hc] using hl)
-        (Stage.acq k ?_ ⟨?_, ?_, ?_, ?_⟩ s.nextConn ?_ ?_) ?_
+        (Stage.acq k ?_ ⟨?_, ?_, ?_, ?_⟩ s.nextConn ?_ ?_ ?_) ?_
       · simp [stepOp, hc, upd_same]
       · simpa [stepOp, hc, State.view] using qb'
       · simpa [stepOp, hc, State.view] using qw'
@@ -657,6 +867,7 @@ theorem inv_holder_op {s : State} {t : Nat} {op : Op} {ops : List Op} (hi : Inv 
           by simpa [stepOp, hc, State.view] using (qf' _ (Nat.le_refl _)).2⟩
       · simp [stepOp, hc, State.view]
       · simpa [stepOp, hc, State.view] using hm'
+      · simpa [stepOp, hc, upd_same] using h0
       · exact hok.congr (by simp [stepOp, hc, upd_same]) (by simp [stepOp, hc, upd_same])
           (curPending_congr' (by simp [stepOp, hc, upd_same]) (by rw [h]; simp) (by simp [stepOp, hc, upd_same]))
     | false =>
@@ -686,7 +897,7 @@ theorem inv_holder_op {s : State} {t : Nat} {op : Op} {ops : List Op} (hi : Inv 
       · exact hok.conserve.finish (curPending_of (by rw [h]; simp)) ((s.threads t).tidv, .raised .modbusExc)
           (by simp [stepOp, hc, upd_same]) (by simp [stepOp, hc, upd_same])
           (by simp [stepOp, hc, upd_same, hfil])
-  | acq k h q c hs hm =>
+  | acq k h q c hs hm h0 =>
     rw [h] at hops; cases hops
     have hm' : s.locks 1 = none := hm
     have hs' : s.sock = some c := hs
@@ -694,7 +905,7 @@ theorem inv_holder_op {s : State} {t : Nat} {op : Op} {ops : List Op} (hi : Inv 
     obtain ⟨_, _, qf, qc⟩ := q
     have qf' : FreshF s.pending s.stream s.nextConn := qf
     have hc1 : c + 1 = s.nextConn := (qc c hs).1
-    refine inv_holder_step hi hl hoth ?_ (Stage.inner c ?_ ?_ ?_ ?_ (IStage.tid k ?_ ?_)) ?_
+    refine inv_holder_step hi hl hoth ?_ (Stage.inner c ?_ ?_ ?_ ?_ (IStage.tid k ?_ ?_ ?_)) ?_
     · simpa [stepOp, lockKey, lockAcquire, hm', upd] using hl
     · simpa [stepOp, lockKey, lockAcquire, hm', State.view] using hs'
     · simpa [stepOp, lockKey, lockAcquire, hm', State.view] using hc1
@@ -702,19 +913,108 @@ theorem inv_holder_op {s : State} {t : Nat} {op : Op} {ops : List Op} (hi : Inv 
     · simp [stepOp, lockKey, lockAcquire, hm', upd, State.view]
     · simp [stepOp, lockKey, lockAcquire, hm', upd_same]
     · simpa [stepOp, lockKey, lockAcquire, hm', State.view, View.shared] using hq
+    · simpa [stepOp, lockKey, lockAcquire, hm', State.view, upd_same, h0] using attempts_pos s.cfg
     · exact hok.congr (by simp [stepOp, lockKey, lockAcquire, hm', upd_same])
         (by simp [stepOp, lockKey, lockAcquire, hm', upd_same])
         (curPending_congr' (by simp [stepOp, lockKey, lockAcquire, hm', upd_same]) (by rw [h]; simp)
           (by simp [stepOp, lockKey, lockAcquire, hm', upd_same]))
-  | closedProc h hr hbc hlost hs hb hw hfr hm =>
+  | closedBackoff k h hbc ha cl =>
+    -- the back-off between two attempts: both locks stay held, nothing changes
     rw [h] at hops; cases hops
+    refine inv_closed_step hi hl hoth rfl
+      (Stage.closedConnect k ?_ ?_ ?_ (closed_of_fields cl rfl rfl rfl rfl rfl rfl rfl)) ?_
+    · simp [stepOp, upd_same]
+    · simpa [stepOp, upd_same] using hbc
+    · simpa [stepOp, upd_same, State.view] using ha
+    · exact hok.congr (by simp [stepOp, upd_same]) (by simp [stepOp, upd_same])
+        (curPending_congr' (by simp [stepOp, upd_same]) (by rw [h]; simp) (by simp [stepOp, upd_same]))
+  | closedConnect k h hbc ha cl =>
+    -- `_transact`: `client.connect()` finds no socket and opens one; the frame is built again
+    rw [h] at hops; cases hops
+    have hso : s.sock = none := cl.1
+    refine inv_closed_step hi hl hoth (by simp [stepOp, hso])
+      (Stage.closedOpen k ?_ ?_ ?_ ?_
+        (closed_of_fields cl (by simp [stepOp, hso]) (by simp [stepOp, hso]) (by simp [stepOp, hso])
+          (by simp [stepOp, hso]) (by simp [stepOp, hso]) (by simp [stepOp, hso]) (by simp [stepOp, hso]))) ?_
+    · simp [stepOp, hso, upd_same]
+    · simpa [stepOp, hso, upd_same] using hbc
+    · simpa [stepOp, hso, upd_same, State.view] using ha
+    · simp [stepOp, hso, upd_same]
+    · exact hok.congr (by simp [stepOp, hso, upd_same]) (by simp [stepOp, hso, upd_same])
+        (curPending_congr' (by simp [stepOp, hso, upd_same]) (by rw [h]; simp) (by simp [stepOp, hso, upd_same]))
+  | closedOpen k h hbc ha hfm cl =>
+    rw [h] at hops; cases hops
+    obtain ⟨hso, hb, hw, hfr, hm⟩ := cl
+    have hso' : s.sock = none := hso
+    have hb0 : s.buf = [] := hb
+    have hw0 : pairs s.wire = true := hw
+    have hf0 : FreshF s.pending s.stream s.nextConn := hfr
+    have hm' : s.locks 1 = some (t, 1) := hm
+    cases hc : s.connOk s.attempts with
+    | true =>
+      -- reconnected: the next attempt goes out on a fresh connection
+      refine inv_holder_step hi hl hoth (by simpa [stepOp, hc] using hl)
+        (Stage.inner s.nextConn ?_ ?_ ?_ ?_ (IStage.flush k ?_ ⟨?_, ?_, ?_, ?_⟩ ?_ ?_)) ?_
+      · simp [stepOp, hc, State.view]
+      · simp [stepOp, hc, State.view]
+      · simp only [stepOp, hc, State.view, if_true]
+        intro c' hc'; exact hf0 c' (by omega)
+      · simpa [stepOp, hc, State.view] using hm'
+      · simp [stepOp, hc, upd_same, tailX_plain hbc]
+      · simpa [stepOp, hc, State.view, View.shared] using (hf0 _ (Nat.le_refl _)).1
+      · simpa [stepOp, hc, State.view, View.shared] using (hf0 _ (Nat.le_refl _)).2
+      · simpa [stepOp, hc, State.view, View.shared] using hb0
+      · simpa [stepOp, hc, State.view, View.shared] using hw0
+      · simpa [stepOp, hc, upd_same] using hfm
+      · simpa [stepOp, hc, upd_same, State.view] using ha
+      · exact hok.congr (by simp [stepOp, hc, upd_same]) (by simp [stepOp, hc, upd_same])
+          (curPending_congr' (by simp [stepOp, hc, upd_same]) (by rw [h]; simp) (by simp [stepOp, hc, upd_same]))
+    | false =>
+      -- refused: `_send` raises ConnectionException; both `with` blocks give their locks back on the way out
+      have hfil : ((Op.flush :: .send1 :: .send2 :: tailOps k).filter (fun o => o == .release || o == .crelease)) =
+          [.release, .crelease] := by
+        simp [List.filter_cons, filter_releases_tail]
+      refine inv_holder_step hi hl hoth (by simpa [stepOp, hc, raiseOut] using hl)
+        (Stage.closedRel ?_ ⟨?_, ?_, ?_, ?_, ?_⟩) ⟨?_, ?_⟩
+      · simp [stepOp, hc, raiseOut, upd_same, hfil]
+      · simp [stepOp, hc, raiseOut, State.view]
+      · simpa [stepOp, hc, raiseOut, State.view] using hb0
+      · simpa [stepOp, hc, raiseOut, State.view] using hw0
+      · simpa [stepOp, hc, raiseOut, State.view] using hf0
+      · simpa [stepOp, hc, raiseOut, State.view] using hm'
+      · intro x hx
+        have hx' : x ∈ (s.threads t).results ++ [((s.threads t).cur, (s.threads t).tidv, .raised .modbusExc)] := by
+          simpa [stepOp, hc, raiseOut, upd_same] using hx
+        rw [List.mem_append] at hx'
+        cases hx' with
+        | inl hx' => exact hok.served x hx'
+        | inr hx' =>
+          rw [List.mem_singleton] at hx'
+          exact Or.inl ⟨by rw [hx'], s.attempts, hc⟩
+      · exact hok.conserve.finish (curPending_of (by rw [h]; simp)) ((s.threads t).tidv, .raised .modbusExc)
+          (by simp [stepOp, hc, raiseOut, upd_same]) (by simp [stepOp, hc, raiseOut, upd_same])
+          (by simp [stepOp, hc, raiseOut, upd_same, hfil])
+  | closedBackoffLast h hr hbc hall cl =>
+    rw [h] at hops; cases hops
+    refine inv_closed_step hi hl hoth rfl
+      (Stage.closedProc ?_ ?_ ?_ ?_ (closed_of_fields cl rfl rfl rfl rfl rfl rfl rfl)) ?_
+    · simp [stepOp, upd_same]
+    · simpa [stepOp, upd_same] using hr
+    · simpa [stepOp, upd_same] using hbc
+    · simpa [stepOp, upd_same, State.view] using hall
+    · exact hok.congr (by simp [stepOp, upd_same]) (by simp [stepOp, upd_same])
+        (curPending_congr' (by simp [stepOp, upd_same]) (by rw [h]; simp) (by simp [stepOp, upd_same]))
+  | closedProc h hr hbc hall cl =>
+    rw [h] at hops; cases hops
+    obtain ⟨hs, hb, hw, hfr, hm⟩ := cl
     have hb0 : s.buf = [] := hb
     have hs' : s.sock = none := hs
     have hm' : s.locks 1 = some (t, 1) := hm
+    have hall' : s.cfg.attempts ≤ (s.threads t).cur.lost := hall
     have hcp : curPending (s.threads t) = [(s.threads t).cur] := curPending_of (by rw [h]; simp)
     have hpr' : processResp (s.threads t).cur.unit (s.threads t).tidv s.buf (s.threads t).resp =
         (.err .modbusIO, []) := by rw [hb0, hr, processResp_nil]
-    refine inv_holder_step hi hl hoth hl (Stage.closedRel ?_ ?_ ?_ hw hfr hm') ⟨?_, ?_⟩
+    refine inv_holder_step hi hl hoth hl (Stage.closedRel ?_ ⟨?_, ?_, hw, hfr, hm'⟩) ⟨?_, ?_⟩
     · simp [stepOp, upd_same]
     · show (stepOp .whole s t (s.threads t) [.release, .crelease] .process).view.sock = none
       simp [State.view, stepOp, hpr', Result.isOk]
@@ -731,12 +1031,13 @@ theorem inv_holder_op {s : State} {t : Nat} {op : Op} {ops : List Op} (hi : Inv 
       | inr hx' =>
         rw [List.mem_singleton] at hx'
         rw [hx', hpr']
-        exact Or.inr (Or.inr (Or.inl ⟨hbc, hlost, rfl⟩))
+        exact Or.inr (Or.inr (Or.inl ⟨hbc, hall', rfl⟩))
     · exact hok.conserve.finish hcp
         ((s.threads t).tidv, (processResp (s.threads t).cur.unit (s.threads t).tidv s.buf (s.threads t).resp).1)
         (by simp [stepOp, upd_same]) (by simp [stepOp, upd_same]) (by simp [stepOp, upd_same])
-  | closedRel h hs hb hw hfr hm =>
+  | closedRel h cl =>
     rw [h] at hops; cases hops
+    obtain ⟨hs, hb, hw, hfr, hm⟩ := cl
     have hb0 : s.buf = [] := hb
     have hw0 : pairs s.wire = true := hw
     have hs' : s.sock = none := hs
@@ -798,7 +1099,7 @@ theorem inv_step {s : State} (hi : Inv reqs s) (t : Nat) : Inv reqs (step .whole
       refine inv_outsider_step hi (not_holder_of_outside hi hout)
         (s' := stepBegin .whole s t (s.threads t) r rest)
         (fun u hu => by simp [stepBegin, upd, hu]) rfl rfl ?_ ⟨?_, ?_⟩
-      · exact Or.inr ⟨r.lat, by simp [stepBegin, upd_same, txnOps_whole]⟩
+      · exact Or.inr ⟨r.lat, by simp [stepBegin, upd_same, txnOps_whole], by simp [stepBegin, upd_same]⟩
       · intro x hx
         exact hok.served x (by simpa [stepBegin, upd_same] using hx)
       · have hc := hok.conserve
@@ -820,13 +1121,13 @@ theorem inv_step {s : State} (hi : Inv reqs s) (t : Nat) : Inv reqs (step .whole
       cases hout with
       | inl h0 => rw [h0] at hops; cases hops
       | inr hk =>
-        obtain ⟨k, hk⟩ := hk
+        obtain ⟨k, hk, h0⟩ := hk
         rw [hk] at hops; cases hops
         cases hl : s.locks 0 with
         | none =>
           obtain ⟨q, hm, _⟩ := hi.free hl
           show Inv reqs (stepOp .whole s t (s.threads t) _ .cacquire)
-          refine inv_cacquire hi hl hoth ?_ (Stage.pre k ?_ ?_ ?_) ?_
+          refine inv_cacquire hi hl hoth ?_ (Stage.pre k ?_ ?_ ?_ ?_) ?_
           · simp [stepOp, clientKey, lockAcquire, hl, upd]
           · simp [stepOp, clientKey, lockAcquire, hl, upd_same]
           · exact idle_of_fields q (by simp [stepOp, clientKey, lockAcquire, hl])
@@ -834,6 +1135,7 @@ theorem inv_step {s : State} (hi : Inv reqs s) (t : Nat) : Inv reqs (step .whole
               (by simp [stepOp, clientKey, lockAcquire, hl]) (by simp [stepOp, clientKey, lockAcquire, hl])
               (by simp [stepOp, clientKey, lockAcquire, hl])
           · simpa [stepOp, clientKey, lockAcquire, hl, upd, State.view] using hm
+          · simpa [stepOp, clientKey, lockAcquire, hl, upd_same] using h0
           · exact hok.congr (by simp [stepOp, clientKey, lockAcquire, hl, upd_same])
               (by simp [stepOp, clientKey, lockAcquire, hl, upd_same])
               (curPending_congr' (by simp [stepOp, clientKey, lockAcquire, hl, upd_same]) (by rw [hk]; simp)
@@ -849,9 +1151,9 @@ theorem inv_step {s : State} (hi : Inv reqs s) (t : Nat) : Inv reqs (step .whole
           rw [e]; exact hi
 
 /-- the initial state satisfies the invariant, whether the client is connected or not, whatever the fate of the
-    connection attempts and of the replies to come -/
-theorem inv_init (reqs : Nat → List Req) (connected : Bool) (cok : Nat → Bool) :
-    Inv reqs (init reqs connected cok) := by
+    connection attempts and of the replies to come, whatever the retry configuration of the client -/
+theorem inv_init (reqs : Nat → List Req) (connected : Bool) (cok : Nat → Bool) (cfg : Cfg) :
+    Inv reqs (init reqs connected cok cfg) := by
   refine ⟨?_, ?_, ?_⟩
   · intro _
     refine ⟨⟨rfl, rfl, fun c _ => ⟨rfl, rfl⟩, ?_⟩, rfl, fun t => Or.inl rfl⟩
@@ -870,7 +1172,7 @@ theorem inv_init (reqs : Nat → List Req) (connected : Bool) (cok : Nat → Boo
       have : x ∈ ([] : List (Req × Nat × Result)) := hx
       cases this
     · show ([] : List (Req × Nat × Result)).map (·.1) ++ curPending _ ++ reqs t = reqs t
-      have : curPending ((init reqs connected cok).threads t) = [] := by simp [curPending, init]
+      have : curPending ((init reqs connected cok cfg).threads t) = [] := by simp [curPending, init]
       rw [this]; rfl
 
 theorem inv_run (reqs : Nat → List Req) {s : State} (hi : Inv reqs s) (sched : List Nat) :
@@ -880,8 +1182,9 @@ theorem inv_run (reqs : Nat → List Req) {s : State} (hi : Inv reqs s) (sched :
   | cons t rest ih => exact ih (inv_step hi t)
 
 /-- every reachable state satisfies the invariant -/
-theorem inv_reachable (reqs : Nat → List Req) (connected : Bool) (cok : Nat → Bool) (sched : List Nat) :
-    Inv reqs (runSched .whole (init reqs connected cok) sched) := inv_run reqs (inv_init reqs connected cok) sched
+theorem inv_reachable (reqs : Nat → List Req) (connected : Bool) (cok : Nat → Bool) (cfg : Cfg) (sched : List Nat) :
+    Inv reqs (runSched .whole (init reqs connected cok cfg) sched) :=
+  inv_run reqs (inv_init reqs connected cok cfg) sched
 
 /-! ### no deadlock, fairness -/
 
@@ -891,7 +1194,7 @@ theorem exists_runnable {s : State} (hi : Inv reqs s) (t : Nat) (hnd : (s.thread
   cases hl : s.locks 0 with
   | some p =>
     obtain ⟨h, d⟩ := p
-    obtain ⟨op, l, ho, hne, hacq, _, _⟩ := (hi.held h d hl).2.1.head
+    obtain ⟨op, l, ho, hne, hacq, _⟩ := (hi.held h d hl).2.1.head
     refine ⟨h, ?_⟩
     by_cases ha : op = .acquire
     · subst ha
@@ -906,7 +1209,7 @@ theorem exists_runnable {s : State} (hi : Inv reqs s) (t : Nat) (hnd : (s.thread
       | nil => simp [Thread.done, h0, htodo] at hnd
       | cons r rest => simp [runnable, h0, htodo]
     | inr hk =>
-      obtain ⟨k, hk⟩ := hk
+      obtain ⟨k, hk, _⟩ := hk
       simp [runnable, hk, clientKey, hl]
 
 theorem round_progress {s : State} (hi : Inv reqs s) (n : Nat)
@@ -931,7 +1234,8 @@ theorem round_progress {s : State} (hi : Inv reqs s) (n : Nat)
     exact run_progress .whole s round n u hn (hc u hun) hu
 
 /-- fairness, finite form: a schedule made of `k` rounds, each round giving every thread below `n` at least one turn,
-    with `k` at least the number of operations the threads still have to perform, ends with every thread finished -/
+    with `k` at least the number of operations the threads still have to perform (retries included), ends with every
+    thread finished -/
 theorem fair_rounds_finish {s : State} (hi : Inv reqs s) (n : Nat)
     (hn : ∀ v, n ≤ v → (s.threads v).done = true) (rounds : List (List Nat))
     (hc : ∀ r ∈ rounds, Covers n r) (hk : totalWork .whole s n ≤ rounds.length) :
@@ -959,5 +1263,5 @@ theorem fair_rounds_finish {s : State} (hi : Inv reqs s) (n : Nat)
         (fun r' hr' => hc r' (List.mem_cons_of_mem _ hr'))
       simp at hk
       omega
-end Pymodbus.Sched
 
+end Pymodbus.Sched
